@@ -245,6 +245,27 @@ def gen_boolcol(rng, d):
     return Bn(rng.choice(CMP), gen_int(rng, d - 1), gen_int(rng, d - 1))
 
 
+SHORTHANDS = ["contains", "startswith", "endswith", "icontains", "istartswith", "iendswith"]
+
+
+def gen_shorthand(rng, d):
+    """LIKE shorthands (contains/startswith/endswith and the case-insensitive forms) as operands of comparison,
+    IS, LIKE and boolean operators - they have no entry of their own in the precedence table: oracle-only family"""
+    sh = ["sh", rng.choice(SHORTHANDS), gen_txt(rng, 1), gen_txt(rng, 1)]
+    if d <= 0:
+        return sh
+    k = rng.random()
+    other = A(rng.choice(BOOL_ATOMS)) if rng.random() < 0.6 else Bn(rng.choice(CMP), A(rng.choice(INT_ATOMS)), A(rng.choice(INT_ATOMS)))
+    if k < 0.45:
+        op = rng.choice(CMP + ["is_", "is_not", "like_op"])
+        return Bn(op, other, sh) if rng.random() < 0.7 else Bn(op, sh, other)
+    if k < 0.6:
+        return [4, gen_shorthand(rng, d - 1)]
+    if k < 0.8:
+        return [rng.choice([2, 3]), gen_shorthand(rng, d - 1), other]
+    return Bn(rng.choice(CMP), gen_shorthand(rng, d - 1), gen_shorthand(rng, d - 1))
+
+
 def gen_bool(rng, d, tc=False):
     if d <= 0:
         return Bn(rng.choice(CMP), A(rng.choice(INT_ATOMS)), A(rng.choice(INT_ATOMS)))
@@ -347,6 +368,9 @@ def gen_cases(rng, tier):
     for i in range(n // 4):
         t = gen_boolcol(rng, rng.randint(1, 4))
         cases.append({"in": t, "kind": "boolean-columns", "src": t, "strict_types": False, "model": False})
+    for i in range(n // 4):
+        t = gen_shorthand(rng, rng.randint(1, 3))
+        cases.append({"in": [0, 0], "kind": "like-shorthand", "src": t, "strict_types": False, "model": False})
     return cases
 
 
@@ -408,6 +432,8 @@ def build(t):
     k = t[0]
     if k == "tc":
         return type_coerce(build(t[1]), String)
+    if k == "sh":
+        return getattr(build(t[2]), t[1])(build(t[3]))
     if k == 0:
         return _atom(t[1])
     if k == 1:
@@ -503,6 +529,12 @@ def full_sql(t):
     k = t[0]
     if k == "tc":
         return full_sql(t[1])
+    if k == "sh":
+        l, r = full_sql(t[2]), full_sql(t[3])
+        if t[1].startswith("i"):
+            l, r = "lower(%s)" % l, "lower(%s)" % r
+        pat = {"contains": "(('%%' || %s) || '%%')", "startswith": "(%s || '%%')", "endswith": "('%%' || %s)"}[t[1].lstrip("i") if t[1] != "icontains" else "contains"] % r
+        return "(%s LIKE %s)" % (l, pat)
     if k == 0:
         if t[1] == NULL_ATOM:
             return "NULL"
@@ -565,6 +597,8 @@ def _concat_over_arith(t):
     """does the (tc-stripped) tree contain concat with an ungrouped arithmetic/bitwise child?"""
     if t[0] == "tc":
         return _concat_over_arith(t[1])
+    if t[0] == "sh":
+        return _concat_over_arith(t[2]) or _concat_over_arith(t[3])
     if t[0] == 1:
         if OPS[t[1]] == "concat_op":
             for ch in (t[2], t[3]):
